@@ -52,7 +52,7 @@ inductive Num
   | missing
   | val (q : Rat) (decimals : Nat)
   | special
-  deriving Repr, BEq, DecidableEq
+  deriving Repr, DecidableEq
 
 def pow10 (n : Nat) : Nat := 10 ^ n
 
@@ -80,17 +80,17 @@ def parseDec? (s : List Char) : Option Num :=
 inductive Number
   | fixed (n : Nat)
   | A | R | G | dot
-  deriving Repr, BEq, DecidableEq
+  deriving Repr, DecidableEq
 
 inductive VType
   | integer | float | string | flag | character
-  deriving Repr, BEq, DecidableEq
+  deriving Repr, DecidableEq
 
 structure Decl where
   id : String
   number : Number
   type : VType
-  deriving Repr, BEq, DecidableEq
+  deriving Repr, DecidableEq
 
 structure Header where
   info : List Decl
@@ -293,7 +293,7 @@ structure GTSummary where
   an : Nat
   uan : Nat
   ns : Nat
-  deriving Repr, BEq, DecidableEq
+  deriving Repr, DecidableEq
 
 def summariseGT (nAlt : Nat) (gts : List (List (Option Nat))) : Option GTSummary :=
   (countAlleles nAlt gts).map (fun c =>
@@ -474,7 +474,7 @@ def decimalsOkB (r : Record) : Bool :=
 
 inductive Err
   | filter | keysCard | gt | seq | intCounts | floatCounts | decimals
-  deriving Repr, BEq, DecidableEq
+  deriving Repr, DecidableEq
 
 def Err.name : Err → String
   | .filter => "filter"
